@@ -57,4 +57,10 @@ def statusInvalidCbor : Nat := 0x12
 def statusMissingParameter : Nat := 0x14
 def statusOther : Nat := 0x7F
 
+/-- response kinds and whether they carry a CBOR body -/
+def respHasBody : List (String × Bool) :=
+  [("GetInfo", true), ("MakeCredential", true), ("ClientPin", true), ("GetAssertion", true),
+   ("GetNextAssertion", true), ("CredentialManagement", true), ("LargeBlobs", true),
+   ("Reset", false), ("Selection", false), ("Vendor", false)]
+
 end Spec
